@@ -6,6 +6,7 @@ package engines
 import (
 	"fmt"
 	"strconv"
+	"strings"
 	"sync"
 	"time"
 
@@ -657,7 +658,6 @@ func e16TypedCloseCase(seed uint64, n int, partial string) Case {
 	}}
 }
 
-
 // e16SiblingCase: long-lived monitors on a publisher whose OTHER subscribers
 // (plain subscriptions, monitors, filtered subscriptions) come and go while
 // events are being published, each closed by its owner right before an event
@@ -753,7 +753,6 @@ func e16SiblingCase(seed uint64, n int) Case {
 	}}
 }
 
-
 // e16InitCloseCase: the monitor is closed (or its publisher stops) while a slow
 // OnInitialize is running and a burst of events is in flight or buffered
 // behind it; repeated with varying burst sizes and instants.  Done() must not
@@ -823,6 +822,128 @@ func e16InitCloseCase(seed uint64, n int) Case {
 	}}
 }
 
+// e16BuilderCase: the core's handler builder used again after Create(): a handler
+// created earlier keeps the callbacks it was created with, also while it is
+// installed in a running monitor.
+func e16BuilderCase(seed uint64) Case {
+	id := fmt.Sprintf("E16/handler-builder-reuse/%d", seed)
+	return Case{ID: id, Desc: map[string]interface{}{"what": "kcache.BuildHandler() reused after Create(), handlers installed in monitors"}, Bubble: true, Run: func(r *Res) {
+		rng := kit.NewRng(kit.Mix(seed, 1666))
+		core := kit.NewCore(&kit.Plan{Seed: rng.U64(), PYield: 100})
+		g := newRootRig(core, nil)
+		defer g.stop(r, "C12")
+		g.root.MakeReady()
+		var mu sync.Mutex
+		var calls []string
+		note := func(s string) func(metav1.Object) {
+			return func(o metav1.Object) {
+				mu.Lock()
+				calls = append(calls, s+":"+kit.Key(o)+"@"+o.GetResourceVersion())
+				mu.Unlock()
+			}
+		}
+		hb := kcache.BuildHandler().OnCreate(note("A.create")).OnUpdate(note("A.update")).OnDelete(note("A.delete"))
+		hA := hb.Create()
+		mA, err := kcache.NewMonitor(g.root.Publisher(), hA)
+		if err != nil {
+			r.V("C16", "monitor-create-error", "%v", err)
+			return
+		}
+		hb = hb.OnCreate(note("B.create")).OnUpdate(note("B.update")).OnDelete(note("B.delete"))
+		hB := hb.Create()
+		mB, err := kcache.NewMonitor(g.root.Publisher(), hB)
+		if err != nil {
+			r.V("C16", "monitor-create-error", "%v", err)
+			return
+		}
+		g.barrier()
+		u := smallUniverse()
+		for i := 0; i < 12; i++ {
+			g.mutate(rng, u)
+		}
+		g.barrier()
+		mu.Lock()
+		got := append([]string(nil), calls...)
+		mu.Unlock()
+		nA, nB := 0, 0
+		for _, c := range got {
+			if strings.HasPrefix(c, "A.") {
+				nA++
+			}
+			if strings.HasPrefix(c, "B.") {
+				nB++
+			}
+		}
+		sent := g.sent
+		r.Add("exact-stream-checks", 2)
+		if nA != len(sent) || nB != len(sent) {
+			r.V("C16", "callbacks-missing", "two monitors with handlers created from ONE builder (the builder was given new callbacks after the first Create()): %d events were published; the first handler's own callbacks ran %d times, the second's %d times (each must run once per event): %v", len(sent), nA, nB, got)
+		}
+		mA.Close()
+		mB.Close()
+		r.Key(id)
+	}}
+}
+
+// e16FailedFirstListCase: monitors attached to a real controller whose FIRST list
+// fails (every failure kind): the publisher shuts down without ever becoming
+// ready, so no callback at all may run.
+func e16FailedFirstListCase(seed uint64, kind kit.ListFaultKind, n int) Case {
+	id := fmt.Sprintf("E16/failed-first-list/%s/%d/%d", kind, seed, n)
+	return Case{ID: id, Desc: map[string]interface{}{"failure": kind.String(), "n": n}, Bubble: true, Run: func(r *Res) {
+		rng := kit.NewRng(kit.Mix(seed, uint64(n)+1677+uint64(kind)))
+		core := kit.NewCore(&kit.Plan{Seed: rng.U64(), PYield: 150, PSleep: 40, MaxSleep: 80 * time.Microsecond})
+		srv := kit.NewPodServer(core)
+		u := smallUniverse()
+		for i := 0; i < 4; i++ {
+			u.mutate(rng, srv)
+		}
+		lat := []time.Duration{0, time.Millisecond, 200 * time.Millisecond}[rng.Intn(3)]
+		srv.ListPlan = func(i int) kit.ListFault { return kit.ListFault{Kind: kind, Latency: lat} }
+		g, err := newCtlRig(core, srv, time.Minute, nil)
+		if err != nil {
+			r.Inc(err.Error())
+			return
+		}
+		var hs []*recHandler
+		pubs := []kcache.Publisher{g.ctl}
+		if cl, err := g.ctl.Clone(); err == nil {
+			pubs = append(pubs, cl)
+		}
+		if cl, err := g.ctl.CloneWithFilter(filterFamily()[2].Build()); err == nil {
+			pubs = append(pubs, cl)
+		}
+		var mons []kcache.Monitor
+		for _, p := range pubs {
+			h := newRecHandler()
+			m, err := kcache.NewMonitor(p, h)
+			if err != nil {
+				continue // the controller is already going down: refusing is fine
+			}
+			hs = append(hs, h)
+			mons = append(mons, m)
+		}
+		if !waitCh(g.ctl.Done(), virtBound) {
+			r.V("C14", "not-fail-stop", "first list fails (%s) but the controller is not done", kind)
+			g.cancel()
+			return
+		}
+		for _, m := range mons {
+			waitCh(m.Done(), virtBound)
+		}
+		core.Barrier()
+		for i, h := range hs {
+			r.Add("no-callback-checks", 1)
+			if c := h.snapshot(); len(c) > 0 {
+				r.V("C16", "callback-without-ready", "the controller's first list failed (%s): its publishers never became ready, yet monitor #%d got %d callback(s), the first being %s with %d object(s)", kind, i, len(c), c[0].Kind, len(c[0].Objs))
+			}
+		}
+		g.cancel()
+		core.Barrier()
+		r.Key(id)
+	}}
+}
+
 func init() {
 	register("E16", func(tier string, seed uint64) []Case {
 		var cases []Case
@@ -854,6 +975,10 @@ func init() {
 			}
 			for i := 0; i < 5; i++ {
 				cases = append(cases, e16InitCloseCase(seed, rep*5+i))
+			}
+			cases = append(cases, e16BuilderCase(seed+uint64(rep)))
+			for _, k := range []kit.ListFaultKind{kit.ListErr, kit.ListNonList, kit.ListNonObjects, kit.ListNoAccessor, kit.ListNilNil, kit.ListStatus, kit.ListErrAndList} {
+				cases = append(cases, e16FailedFirstListCase(seed, k, rep))
 			}
 			for i, pk := range []string{"all", "no-create", "no-update", "no-delete"} {
 				cases = append(cases, e16TypedCloseCase(seed, rep*4+i, pk), e16TypedCloseCase(seed, rep*4+i+1, pk))
